@@ -921,7 +921,6 @@ def gen_cases(rng, tier):
     for i, v in enumerate(vals):
         nl = '' if i % 2 == 0 else '\n'
         cases.append(mk(src='std.extVar("v")', S=True, ntn=(i % 2 == 0), vars=[['es', 'v=' + v]], expect_rc=0, expect_stdout=v + nl))
-        cases.append(mk(src='std.extVar("v")', S=True, vars=[['es', 'v']], env={'v': v}, expect_rc=0, expect_stdout=v + '\n'))
         cases.append(mk(src='std.extVar("v")', S=True, vars=[['esf', 'v=f.txt']], files={'f.txt': v}, expect_rc=0, expect_stdout=v + '\n'))
         cases.append(mk(src='std.extVar("k")', S=True, vars=[['es', 'k=1=' + v]], expect_rc=0, expect_stdout='1=' + v + '\n'))
         cases.append(mk(src='std.extVar("k=1")', vars=[['es', 'k=1=' + v]], expect_rc=1))
@@ -932,6 +931,27 @@ def gen_cases(rng, tier):
                         expect_rc=0, expect_stdout=v + '\n'))
         cases.append(mk(src='function(p) p', func={'params': [['p', None]], 'body': 'p'}, S=True, vars=[['tsf', 'p=a=b.txt']],
                         files={'a=b.txt': v}, expect_rc=0, expect_stdout=v + '\n'))
+    # D'. variables taken from the environment (var without '=') and empty values, all four kinds:
+    #     what std.extVar / the parameter sees must be exactly what was supplied
+    idf = {'params': [['C12V_P', None]], 'body': 'C12V_P'}
+    env_vals = ['', 'non-empty', 'x=y=z', 'line\nbreak', 'é日本\U0001D11E', ' ']
+    for kind in ['es', 'ec', 'ts', 'tc']:
+        is_tla, is_code = kind[0] == 't', kind[1] == 'c'
+        src = 'function(C12V_P) C12V_P' if is_tla else 'std.extVar("C12V_E")'
+        name = 'C12V_P' if is_tla else 'C12V_E'
+        func = idf if is_tla else None
+        chosen = env_vals if tier == 'thorough' else env_vals[:1] + rng.sample(env_vals[1:], 2)
+        for v in chosen:
+            supplied = json.dumps(v) if is_code else v           # code denoting the string v
+            cases.append(mk(src=src, func=func, S=True, ntn=rng.random() < 0.3 and v != '', vars=[[kind, name]], env={name: supplied},
+                            expect_rc=0, expect_stdout=None))
+            cases[-1]['expect_stdout'] = v + ('' if cases[-1]['ntn'] else '\n')
+        # the same empty value given on the command line
+        cases.append(mk(src=src, func=func, S=True, vars=[[kind, name + '=' + ('""' if is_code else '')]], expect_rc=0, expect_stdout='\n'))
+        # truly undefined, and (code kinds) defined as the empty source text
+        cases.append(mk(src=src, func=func, S=True, vars=[[kind, name]], env={}, expect_rc=1))
+        if is_code:
+            cases.append(mk(src=src, func=func, S=True, vars=[[kind, name]], env={name: ''}, expect_rc=1))
     lazy = [
         mk(src='1', vars=[['ec', 'unused=error "never"']], expect_rc=0, expect_stdout='1\n'),
         mk(src='std.extVar("u")', vars=[['ec', 'u=error "used"']], expect_rc=1),
